@@ -1,3 +1,4 @@
+import os
 """
 C14 — translation is a deterministic, side-effect-free function of the input text.
 
@@ -57,6 +58,17 @@ def correspondence(ctx):
         cases.append(rules)
     st, dis = rules_check.run_corr(ctx, cases, 1)
     st["sample"] = {"program": tl.render_prog(cases[-1])}
+    # the model is a function of the program; on the Python side a syntactic sufficient condition is checked: no construct
+    # that can carry state from one translation to the next beyond those inspected by hand (notes/purity_baseline.json)
+    import purity, json as _json
+    base = _json.load(open(os.path.join(os.path.dirname(os.path.dirname(os.path.abspath(purity.__file__))), "notes", "purity_baseline.json")))["items"]
+    known = {(b["file"], b["kind"], b["where"], b["code"]) for b in base}
+    found = [x for x in purity.scan(tl.REPO) if "/tests/" not in x["file"]]
+    new = [x for x in found if (x["file"], x["kind"], x["where"], x["code"]) not in known]
+    st["state_like_constructs"] = {"found": len(found), "inspected_baseline": len(known), "new": len(new)}
+    for x in new:
+        dis.append({"layer": "static-state", "text": "{}:{} {}: {}".format(x["file"], x["line"], x["kind"], x["code"]),
+                    "what": "a construct that can carry state between translations and is not in the inspected baseline"})
     return st, dis
 
 def _inproc_chunk(args):
